@@ -126,11 +126,29 @@ pub fn parsed_info(ctx: &Context, sys: &TransitionSystem) -> ParsedInfo {
 pub struct McRun {
     pub outcome: Outcome<Verdict>,
     pub parsed: Option<ParsedInfo>,
+    /// if the call returned `Error::FromSolver(_, msg)`: the message as carried by the error
+    pub from_solver_msg: Option<String>,
+    /// variant name of the returned error
+    pub err_variant: Option<&'static str>,
+}
+
+pub fn err_variant(e: &patronus::smt::Error) -> &'static str {
+    use patronus::smt::Error::*;
+    match e {
+        Io(_) => "Io",
+        StackUnderflow => "StackUnderflow",
+        FromSolver(..) => "FromSolver",
+        SolverDead(_) => "SolverDead",
+        UnexpectedResponse(..) => "UnexpectedResponse",
+        Parser(_) => "Parser",
+    }
 }
 
 /// parse -> (simplify) -> start solver -> bmc / pdr, all real patronus code
 pub fn run_mc(world: &WorldRef, btor2: &str, cfg: &McCfg) -> McRun {
     let mut parsed: Option<ParsedInfo> = None;
+    let mut from_solver_msg: Option<String> = None;
+    let mut variant: Option<&'static str> = None;
     let outcome = guarded_with_world(world, || {
         let mut ctx = Context::default();
         let mut sys = patronus::btor2::parse_str(&mut ctx, btor2, Some("gen"))
@@ -140,7 +158,13 @@ pub fn run_mc(world: &WorldRef, btor2: &str, cfg: &McCfg) -> McRun {
         }
         parsed = Some(parsed_info(&ctx, &sys));
         let solver = solver_const(cfg.profile);
-        let mut smt_ctx = solver.start(None).map_err(|e| format!("start: {e}"))?;
+        let mut smt_ctx = solver.start(None).map_err(|e| {
+            variant = Some(err_variant(&e));
+            if let patronus::smt::Error::FromSolver(_, m) = &e {
+                from_solver_msg = Some(m.clone());
+            }
+            format!("start: {e} [{e:?}]")
+        })?;
         let res = match &cfg.engine {
             Engine::Bmc {
                 individually,
@@ -163,10 +187,21 @@ pub fn run_mc(world: &WorldRef, btor2: &str, cfg: &McCfg) -> McRun {
             Ok(ModelCheckResult::Success) => Ok(Verdict::Success),
             Ok(ModelCheckResult::Unknown) => Ok(Verdict::Unknown),
             Ok(ModelCheckResult::Fail(w)) => Ok(Verdict::Fail(convert_witness(&w))),
-            Err(e) => Err(format!("{e} [{e:?}]")),
+            Err(e) => {
+                variant = Some(err_variant(&e));
+                if let patronus::smt::Error::FromSolver(_, m) = &e {
+                    from_solver_msg = Some(m.clone());
+                }
+                Err(format!("{e} [{e:?}]"))
+            }
         }
     });
-    McRun { outcome, parsed }
+    McRun {
+        outcome,
+        parsed,
+        from_solver_msg,
+        err_variant: variant,
+    }
 }
 
 /// C03's oracle: replays a witness in the reference semantics.
